@@ -624,10 +624,26 @@ def _bounds_of(case):
     return None
 
 
+def init_tol(case, ob):
+    """Tolerance for a position determined by scipy.optimize.minimize(tol=1e-7): 1e-4*size (DESIGN 2.4), but not
+    below what the minimiser's stopping rule can resolve.  L-BFGS-B stops on a decrease of the objective (the
+    distance d to the given position) of 1e-7*max(1, d); a point of the manifold e away from the foot of the
+    perpendicular is only e^2/(2d) farther from the given position, so e is resolved to sqrt(2*d*delta), with
+    delta = 1e-5*max(1, d) taken here (100 times the stopping threshold)."""
+    d0 = vdist(case["pos"], ob["pos0"])
+    return max(MINTOL * case["size"], math.sqrt(2e-5 * d0 * max(1.0, d0)))
+
+
+def objective_tol(d0):
+    """how far above the minimal distance the minimiser may stop"""
+    return 1e-5 * max(1.0, d0)
+
+
 def _initial_ok(case, ob, mtol):
     """the new clamp is at the given position, or at the closest point of the manifold (within bounds)"""
     k = case["kind"]
     pos, p0, q0 = case["pos"], ob["pos0"], ob["params0"]
+    mtol = init_tol(case, ob)
     b = _bounds_of(case)
     if b is not None:
         for x, (lo, hi) in zip(q0, b):
@@ -652,6 +668,8 @@ def _initial_ok(case, ob, mtol):
         if case["where"] == "on" and not d0 <= mtol:
             return "created on the %s at %r but reports %r" % (k, pos, p0)
         return None
+    if not d0 <= vdist(pos, want) + objective_tol(d0):
+        return "created at %r: reports %r at distance %.9g, the %s has a point at distance %.9g" % (pos, p0, d0, k, vdist(pos, want))
     if not vdist(p0, want) <= mtol:
         return "created at %r: reports %r, the closest point of the %s is %r (%.3g away from the reported one)" % (pos, p0, k, want, vdist(p0, want))
     return None
@@ -725,7 +743,8 @@ def coq_goals(case, ob, gid0):
     if "error" in ob:
         return [(gid0, "error", false_goal)]
     size = case["size"]
-    tol, mtol = REL * size, MINTOL * size
+    tol = REL * size
+    mtol = init_tol(case, ob) if "pos0" in ob and "pos" in case else MINTOL * size
     nums = []
     for key in ("params0", "pos0"):
         nums += ob.get(key, [])
@@ -752,6 +771,8 @@ def coq_goals(case, ob, gid0):
         closest = "line_closest_t %s %s %s %s %s" % (p1, p2, pos, lo, hi)
         conj.append(vnear("line_pos %s %s (%s)" % (p1, p2, closest), ob["pos0"], mtol))
         conj.append("Rabs (%s - %s) <= %s" % (closest, R_(ob["params0"][0]), R_(mtol)))
+        conj.append("norm (vsub %s %s) - norm (vsub %s (line_pos %s %s (%s))) <= %s"
+                    % (pos, cvec(ob["pos0"]), pos, p1, p2, closest, R_(objective_tol(vdist(case["pos"], ob["pos0"])))))
         if min(abs(x - flo), abs(x - fhi)) < 1e-6 * size:
             what = "line-boundary"
         c0 = "(%s, %s)" % (R_(ob["params0"][0]), cvec(ob["pos0"]))
@@ -768,6 +789,8 @@ def coq_goals(case, ob, gid0):
         conj.append("Rabs (fst (%s) - %s) <= %s" % (closest, R_(ob["params0"][0]), R_(mtol)))
         conj.append("Rabs (snd (%s) - %s) <= %s" % (closest, R_(ob["params0"][1]), R_(mtol)))
         conj.append(vnear("plane_closest_point %s %s %s" % (pt, n, pos), ob["pos0"], mtol))
+        conj.append("norm (vsub %s %s) - norm (vsub %s (plane_closest_point %s %s %s)) <= %s"
+                    % (pos, cvec(ob["pos0"]), pos, pt, n, pos, R_(objective_tol(vdist(case["pos"], ob["pos0"])))))
         c0 = "((%s, %s), %s)" % (R_(ob["params0"][0]), R_(ob["params0"][1]), cvec(ob["pos0"]))
         for q, p in zip(case["updates"], ob["upd"]):
             conj.append(vnear("clamp_position (clamp_update (plane_pos %s %s %s) %s (%s, %s))" % (pt, n, rr, c0, R_(q[0]), R_(q[1])), p, tol))
@@ -805,7 +828,7 @@ def coq_goals(case, ob, gid0):
         # assumption of C17_initial, monitored); created on the manifold => stays at the given position
         conj.append(vnear("clamp_position (clamp_update (%s) %s %s)" % (fn, c0, par(ob["params0"])), ob["pos0"], tol))
         for s in samples:
-            conj.append("norm (vsub %s %s) <= norm (vsub %s (clamp_position (clamp_update (%s) %s %s))) + %s"
+            conj.append("norm (vsub %s %s) - norm (vsub %s (clamp_position (clamp_update (%s) %s %s))) <= %s"
                         % (pos, cvec(ob["pos0"]), pos, fn, c0, par(s), R_(mtol)))
         if case["where"] == "on":
             conj.append(vnear("free_pos %s" % pos, ob["pos0"], mtol))
@@ -924,8 +947,8 @@ class C17(Prop):
     def make_cases(self, ctx):
         rng = ctx.rng
         cases = [dict(c) for c in CORPUS]
-        per = dict(line=ctx.n(12, 400), plane=ctx.n(8, 300), radial=ctx.n(8, 300), curve=ctx.n(8, 300), surface=ctx.n(8, 300),
-                   free=ctx.n(4, 100), translation=ctx.n(8, 200), rotation=ctx.n(12, 400), symmetry=ctx.n(12, 400))
+        per = dict(line=ctx.n(12, 160), plane=ctx.n(8, 90), radial=ctx.n(8, 90), curve=ctx.n(8, 100), surface=ctx.n(8, 100),
+                   free=ctx.n(4, 40), translation=ctx.n(8, 80), rotation=ctx.n(12, 110), symmetry=ctx.n(12, 150))
         for k, n in per.items():
             for _ in range(n):
                 cases.append(GENS[k](rng))
